@@ -468,8 +468,12 @@ CRAM_TEMPLATES = {
     "Z": (" \t", 1),      # a blank and a tab
     "O": ("\u3000", 1),   # a wide (three-byte) space
     "N": (" \u00a0", 1),  # a blank and a two-byte no-break space
+    # whitespace-only lines
+    "e": ("  ", 0),       # the indentation alone: an expectation for an empty output line
+    "f": ("    ", 0),     # the indentation and two blanks: an expectation of two blanks
+    "s": (" ", 0),        # one blank: unindented text
 }
-ODD_TITLES = "AZON"
+ODD_TITLES = "AZONs"
 
 
 def cram_line(ctx, t, i):
@@ -655,6 +659,11 @@ def h_cram_parse(max_len, orphan=False):
             if s_ not in seen and any(c in s_ for c in ODD_TITLES) and cram_reference(s_) != "error":
                 seqs.append(s_)
                 seen.add(s_)
+        # whitespace-only lines: expectations when indented, unindented text otherwise
+        for s_ in cram_sequences(min(max_len, 4), "TBCXefs"):
+            if s_ not in seen and any(c in s_ for c in "efs") and cram_reference(s_) != "error":
+                seqs.append(s_)
+                seen.add(s_)
     inputs = [("doc=%s" % (s or "(empty)"), mk_cram_setup(s)) for s in seqs]
     if orphan:
         h = e2.Harness("cram_output_before_command", cram_parse_driver, inputs, cram_post, native="cram_parse", judge=None,
@@ -727,7 +736,10 @@ def md_blocks(seq):
 NEW_OUTPUT = "zz"      # what a failing test prints instead (one line); templates never produce this text as an expectation
 
 
-def md_update_expected(seq, moved=False, fails=()):
+NEW_CODE = 3           # the exit code of a test whose exit code changed (no template writes it)
+
+
+def md_update_expected(seq, moved=False, fails=(), code_fails=()):
     """what `update` with all-passing outcomes must produce, as a list of items ('orig', line idx) | ('text', str), or None where the
     statement leaves it open (exit-code line not last, blocks without a command, bare fences …).
     moved=True: the variant in which lines written before a block's command come out after it (a recorded finding)"""
@@ -758,13 +770,14 @@ def md_update_expected(seq, moved=False, fails=()):
             # the fences of a rewritten block may change their length (the statement keeps language / configuration / comments): any
             # k >= 3 backticks longer than every backtick run that starts a line of the body, the same k for opener and closer
             min_k = max([3] + [FENCES[seq[x]] + 1 for x in comments + code if seq[x] in FENCES])
-            if test_no in fails:
+            if test_no in fails or test_no in code_fails:
                 # a failing test: fence (language / configuration), comments and command stay, the expectations become the new output,
-                # the written exit code stays (the new run ended with it)
+                # the written exit code stays (the new run ended with it) — or, when the exit code changed, becomes the new one
                 if t["pre"]:
                     return None
                 items.append(("open", open_i, 3))
-                items += [("orig", x) for x in comments] + [("orig", x) for x in t["cmd"]] + [("text", NEW_OUTPUT)] + [("orig", x) for x in rs]
+                items += [("orig", x) for x in comments] + [("orig", x) for x in t["cmd"]] + [("text", NEW_OUTPUT)]
+                items += [("text", "[%d]" % NEW_CODE)] if test_no in code_fails else [("orig", x) for x in rs]
                 items.append(("close", 3))
                 continue
             items.append(("open", open_i, min_k))
@@ -811,11 +824,20 @@ def md_update_driver(ctx, args):
     tests = as_items(r.fields[0].fields[1])
     outcomes = []
     fails = []
+    code_fails = []
     for i, t in enumerate(tests):
         ec = field_of(t, "exit_code")
         code = ec.fields[0] if ec.variant == "Some" else mk_int(0, "i32")
         failing = ctx.notes.get("with_failures") and ctx.decide(ctx.sym_bool("fails%d" % i).z())
-        if failing:
+        code_changed = failing and ctx.decide(ctx.sym_bool("code_changed%d" % i).z())
+        if code_changed:
+            # the command now prints one other line and ends with another exit code: the test fails on its exit code
+            code_fails.append(i)
+            new_out = [SInt(b, "u8") for b in (NEW_OUTPUT + "\n").encode()]
+            out = mk_struct("Output", stderr=Agg("OutputStream", None, [VecBuf([], "u8")]), stdout=Agg("OutputStream", None, [VecBuf(new_out, "u8")]),
+                            exit_code=Agg("ExitStatus", "Code", [mk_int(NEW_CODE, "i32")]))
+            result = Agg("Result", "Err", [Agg("TestCaseError", "InvalidExitCode", [mk_int(NEW_CODE, "i32"), code])])
+        elif failing:
             # the command now prints one other line: no expectation matches, the line is unexpected
             fails.append(i)
             new_out = [SInt(b, "u8") for b in (NEW_OUTPUT + "\n").encode()]
@@ -832,6 +854,7 @@ def md_update_driver(ctx, args):
         outcomes.append(new_ref(mk_struct("Outcome", location=none(), output=out, testcase=t, format=Opaque("format"),
                                           escaping=Agg("Escaper", "Unicode", []), result=result)))
     ctx.notes["fails"] = fails
+    ctx.notes["code_fails"] = code_fails
     gen = Agg("MarkdownUpdateGenerator", None, [VecBuf([StringBuf([SInt(ord("s"), "char")])])])
     f = find_method(prog, "generators/markdown.rs", "generate_update")
     u = ctx.call(f, [new_ref(gen), args[0], Slice(outcomes)])
@@ -852,7 +875,8 @@ def md_update_post(ctx, args, kind, value):
     if not f[0].v:
         return True              # the document does not parse: nothing to update
     fails = ctx.notes.get("fails", [])
-    exp = md_update_expected(seq, fails=fails)
+    code_fails = ctx.notes.get("code_fails", [])
+    exp = md_update_expected(seq, fails=fails, code_fails=code_fails)
     if exp is None:
         return True
     if f[3].v == 0:
@@ -870,11 +894,15 @@ def md_update_post(ctx, args, kind, value):
     for ti, (t1, t2) in enumerate(zip(tests, tests2)):
         again.append(same(list(as_str(field_of(t1, "shell_expression")).chars), list(as_str(field_of(t2, "shell_expression")).chars)))
         e1, e2_ = as_items(field_of(t1, "expectations")), as_items(field_of(t2, "expectations"))
-        if ti in fails:
-            # the rewritten test expects exactly the new output
+        if ti in fails or ti in code_fails:
+            # the rewritten test expects exactly the new output (and, when it changed, the new exit code)
             if len(e2_) != 1:
                 return False
             again.append(same(list(as_str(e2_[0].fields[3]).chars), [SInt(ord(c), "char") for c in NEW_OUTPUT]))
+            if ti in code_fails:
+                c2 = field_of(t2, "exit_code")
+                if not (c2.variant == "Some" and c2.fields[0].concrete and c2.fields[0].v == NEW_CODE):
+                    return False
             continue
         if len(e1) != len(e2_):
             return False
@@ -973,8 +1001,9 @@ def replay_update(rep, nat, h, res):
         lines = ["".join(chr(e2.model_int(model, c)) for c in ln) for ln in r.ctx.notes["lines"]]
         doc = "\n".join(lines) + ("\n" if lines else "")
         fails = list(r.ctx.notes.get("fails", []))
-        nk, nv = nat.call("markdown_update", [doc, ["s"], fails])
-        exp = md_update_expected(seq, fails=fails)
+        code_fails = list(r.ctx.notes.get("code_fails", []))
+        nk, nv = nat.call("markdown_update", [doc, ["s"], fails, code_fails])
+        exp = md_update_expected(seq, fails=fails, code_fails=code_fails)
         if nk != "return":
             rep.violation("update:panic", "updating the document %r (all tests passing) panics: %s" % (doc, str(nv)[:100]),
                           {"kind": "eval", "fn": "markdown_update", "args": [doc, ["s"]], "native": [nk, nv], "harness": h.name})
@@ -999,7 +1028,8 @@ def replay_update(rep, nat, h, res):
                     outl.append(it[1])
             return "".join(x + "\n" for x in outl)
         want = render(exp)
-        want_again = [dict(t_, expectations=[NEW_OUTPUT]) if i_ in fails else t_ for i_, t_ in enumerate(nv.get("original") or [])]
+        want_again = [dict(t_, expectations=[NEW_OUTPUT], exit_code=NEW_CODE) if i_ in code_fails else dict(t_, expectations=[NEW_OUTPUT]) if i_ in fails else t_
+                      for i_, t_ in enumerate(nv.get("original") or [])]
         if "updated" in nv and nv.get("reparsed") != {"Ok": want_again}:
             rep.violation("update:updated-document-parses-differently",
                           "updating %r with all tests passing yields %r, which parses to %s instead of the original %s"
@@ -1007,7 +1037,7 @@ def replay_update(rep, nat, h, res):
                           {"kind": "eval", "fn": "markdown_update", "args": [doc, ["s"]], "native": [nk, nv], "harness": h.name})
         elif not update_matches_concrete(seq, lines, exp, nv.get("updated")):
             trunc = nv.get("updated") is not None and len(nv["updated"]) < len(want)
-            alt = md_update_expected(seq, moved=True, fails=fails)
+            alt = md_update_expected(seq, moved=True, fails=fails, code_fails=code_fails)
             moved_ok = bool(alt) and nv.get("tests") != 0 and update_matches_concrete(seq, lines, alt, nv.get("updated"))
             rep.violation("update:%s" % ("truncated" if trunc else "lines-before-command-moved-after-it" if moved_ok else "changed-passing-document"),
                           "updating %r with all tests passing yields %r instead of %r" % (doc, nv.get("updated", nv), want),
